@@ -1,4 +1,50 @@
-(* C08 - placeholder until the theorems are in place. *)
-Require Import RQ.Base.
-Theorem C08_placeholder : True. Proof. exact I. Qed.
-Print Assumptions C08_placeholder.
+(* C08 - Curved paths fill their true interior (quads, cubics, arcs, any transform).
+   The metric statement (more than one pixel inside / outside the exact shape) is real-number geometry about code that
+   works in f32 and 16.16 fixed point; it is decided by the correspondence (curve edges are modelled exactly) plus an
+   f64 oracle on the crate's output.  Proved here are the structural claims of the statement and the facts about the
+   curve-edge machinery that the anchors name; hence _partial. *)
+Require Import RQ.Base RQ.F32 RQ.Rect RQ.Raster RQ.RasterIdle RQ.PathF.
+
+(* (1) "a drawing command issued after close continues from the subpath's starting point" *)
+Theorem C08_after_close_continues_from_start : forall c, cur (c_close c) = first c /\ first (c_close c) = first c.
+Proof. intros c. split; reflexivity. Qed.
+Print Assumptions C08_after_close_continues_from_start.
+
+(* (2) "subpaths are implicitly closed for filling": every MoveTo and the end of the path close the open subpath
+   (that is how apply_path is defined), and closing twice adds nothing: an explicit Close before them changes no edge *)
+Theorem C08_close_is_idempotent_partial : forall c, rz (c_close (c_close c)) = rz (c_close c).
+Proof.
+  assert (Hsame : forall r p, raster_add r p p false pzero = r).
+  { intros r p. unfold raster_add, add_edge.
+    destruct (flt (py p) (py p)); cbv beta iota zeta;
+    match goal with |- context [(?a <? 0) || (?h <=? ?b)] => destruct ((a <? 0) || (h <=? b)); [reflexivity|] end;
+    rewrite Z.leb_refl; reflexivity. }
+  intros [cu fi r0]. unfold c_close. cbn [first cur rz]. destruct fi as [fp|]; [|reflexivity]. apply Hsame.
+Qed.
+Print Assumptions C08_close_is_idempotent_partial.
+
+(* (3) curve edge set-up (src/rasterizer.rs:249-282, 356-406): the forward-differencing loop consumes at most the
+   segment count, stops at the first segment that ends below the current row (or at the last), and keeps the edge's end
+   point, shift and winding *)
+Theorem C08_curve_advance_partial : forall fuel cury e,
+  0 <= e_count e -> (Z.to_nat (e_count e) <= fuel)%nat ->
+  let e' := curve_advance fuel cury e in
+  0 <= e_count e' <= e_count e /\ (e_count e' = 0 \/ cury < dot16_to_dot2 (e_nexty e')) /\
+  e_x2 e' = e_x2 e /\ e_y2 e' = e_y2 e /\ e_shift e' = e_shift e /\ e_err e' = e_err e /\ e_oldy e' = e_oldy e /\ e_wind e' = e_wind e.
+Proof. exact curve_advance_spec. Qed.
+Print Assumptions C08_curve_advance_partial.
+
+(* (4) curve stepping per sample row (ActiveEdge::step): never a zero denominator, the edge keeps its end row, shift
+   and winding, the segment counter stays in range *)
+Theorem C08_curve_step_partial : forall e cury, cinv e -> e_err e = false ->
+  e_err (step e cury) = false /\ cinv (step e cury) /\
+  e_y2 (step e cury) = e_y2 e /\ e_shift (step e cury) = e_shift e /\ e_wind (step e cury) = e_wind e.
+Proof. exact step_no_err. Qed.
+Print Assumptions C08_curve_step_partial.
+
+(* (5) curve edges that start above the surface are brought to row 0 without error and keep their end row *)
+Theorem C08_curve_edges_above_the_surface_partial : forall fuel e cury, cinv e -> e_err e = false -> cury <= 0 ->
+  e_err (fst (prestep_fast fuel e cury)) = false /\ snd (prestep_fast fuel e cury) = 0 /\
+  e_y2 (fst (prestep_fast fuel e cury)) = e_y2 e.
+Proof. exact prestep_fast_spec. Qed.
+Print Assumptions C08_curve_edges_above_the_surface_partial.
